@@ -198,6 +198,18 @@ def pump_paths(chk, fx, b, mlen):
     roots = {_buffer_root(e[1])[0] for (_, e) in exts + splits + finds}
     chk.instance("C06/R4", "ssh pump: data is appended to, searched in and split off one buffer (%s)" % sorted(roots), b.name, None, holds=len(roots) == 1,
                  key="C06/R4 %s several-buffers" % fn)
+    seen_fns = set()
+    for p in paths:
+        for e in p.trace:
+            if e[0] != "call" or not any(_mentions_root(a, roots) for a in e[2]):
+                continue
+            f = T.short(T.strip_generics(e[1]), 2)
+            if f in BUFFER_OK or f.startswith("num::") or f in seen_fns:
+                continue
+            seen_fns.add(f)
+            chk.instance("C06/R6", "ssh pump: the input buffer is only appended to, searched for the delimiter and split (%s looks at its content)" % f, b.name,
+                         loc_of(e[3]), holds=False, key="C06/R6 %s inspects-buffer-content %s" % (fn, f),
+                         detail="its outcome depends on where the transport cut the stream into packets")
     fresh = []
     for p in paths:
         depth = 0
@@ -325,6 +337,16 @@ def _buffer_root(v):
     return txt, (v[0] == "field" and "self" in A.vstr(v[1]))
 
 
+BUFFER_OK = {"BytesMut::len", "BytesMut::freeze", "BytesMut::split_to", "Index::index", "Deref::deref", "AsRef::as_ref", "Borrow::borrow", "BytesMut::reserve",
+             "BytesMut::capacity", "BytesMut::is_empty", "BytesMut::extend_from_slice", "AsyncReadExt::read_buf", "AsyncReadExt::read", "Finder::find", "memmem::find",
+             "DerefMut::deref_mut", "IndexMut::index_mut", "slice::len", "BufMut::remaining_mut", "Bytes::len"}
+
+
+def _mentions_root(v, roots):
+    from vlib import absint as A
+    return any(A.vstr(x) in roots for x in A.walk_value(v))
+
+
 def _win(v, mlen):
     """Normal form of a window-start expression over naturals: ("const", n) | ("var", X, k) = X ∸ k for a loop-carried X |
     ("len", buffer root, k) = buffer.len() ∸ k | None.  (a ∸ j) ∸ k = a ∸ (j + k) holds for saturating subtraction."""
@@ -389,6 +411,14 @@ def stream_receiver_paths(chk, fx, kind, b, mlen):
                      key="C06/R4 %s buffer-discarded-by %s" % (fn, e[2]), detail="bytes after the delimiter (the next message, or its head) are lost")
     if discards and not splits:
         return
+    # R4 first (it needs no split site): bytes are read into, and searched in, a buffer that is a field of the handle — a buffer moved
+    # into the call (mem::take, a local) dies with an abandoned recv future, and the head of the message with it
+    for (p, e) in reads[:1] + finds[:1]:
+        root, in_handle = _buffer_root(e[1])
+        what = {"read": "read_buf destination", "find": "searched buffer"}[e[0]]
+        key = {"read": "read-buffer-not-in-handle", "find": "searched-buffer-not-in-handle"}[e[0]]
+        chk.instance("C06/R4", "%s: %s is a field of the handle (survives the call): %s" % (kind, what, root[:60]), b.name, loc_of(e[-1]), holds=in_handle,
+                     key="C06/R4 %s %s" % (fn, key))
     chk.floor("C06 %s find/read/split sites" % kind, min(len(finds), len(reads), len(splits)), 1)
     chk.call_sites += len(finds) + len(reads) + len(splits)
 
@@ -403,7 +433,7 @@ def stream_receiver_paths(chk, fx, kind, b, mlen):
             return window(h[2][0])
         return A.lit(0)
     # R4: the buffers persist across calls
-    for (p, e) in reads[:1] + splits[:1] + finds[:1]:
+    for (p, e) in splits[:1]:
         root, in_handle = _buffer_root(e[1])
         what = {"read": "read_buf destination", "split": "split_to receiver", "find": "searched buffer"}[e[0]]
         key = {"read": "read-buffer-not-in-handle", "split": "split-buffer-not-in-handle", "find": "searched-buffer-not-in-handle"}[e[0]]
@@ -412,6 +442,22 @@ def stream_receiver_paths(chk, fx, kind, b, mlen):
     roots = {_buffer_root(e[1])[0] for (_, e) in reads + splits + finds}
     chk.instance("C06/R4", "%s: bytes are read into, searched in and split off one buffer (%s)" % (kind, sorted(roots)), b.name, None, holds=len(roots) == 1,
                  key="C06/R4 %s several-buffers" % fn)
+    # R6: where a message ends is decided by the delimiter alone — nothing in the receiver looks at the *content* of what a single read
+    # delivered (per-chunk validation, decoding, counting): how the stream is cut into reads is arbitrary (a multi-byte character, a
+    # delimiter, an element can straddle two of them)
+    seen_fns = set()
+    for p in paths:
+        for e in p.trace:
+            if e[0] != "call" or not any(_mentions_root(a, roots) for a in e[2]):
+                continue
+            f = T.short(T.strip_generics(e[1]), 2)
+            if f in BUFFER_OK or f.startswith("num::") or f in seen_fns:
+                continue
+            seen_fns.add(f)
+            chk.instance("C06/R6", "%s: the receive buffer is only appended to, searched for the delimiter and split (%s looks at its content)" % (kind, f), b.name,
+                         loc_of(e[3]), holds=False, key="C06/R6 %s inspects-buffer-content %s" % (fn, f),
+                         detail="its outcome depends on where the transport cut the stream into reads")
+    chk.instance("C06/R6", "%s: no other use of the buffered bytes" % kind, b.name, None, holds=True)
     # R2: split position = window start + index of the find + MARKER.len()
     for (p, e) in splits:
         prior = [x for x in p.trace[:p.trace.index(e)] if x[0] == "find"]
